@@ -1,1 +1,2 @@
 import Generated.Live
+import Generated.PyAst
